@@ -24,6 +24,7 @@ Good ==
   \cup { St("chainw:" \o v, SPrint(IAsg(Id(v), Num(0), IAsg(Id(Other(v)), Num(0), Fresh)))) : v \in Vars }     \* the value of an indexed assignment is the assigned value
   \cup { St("nestread:" \o v, SPrint(Idx(Idx(Arr(<<Id(v), Num(7)>>), Num(0)), LastIdx(v)))) : v \in Vars }     \* two indexes in one expression: each checked against ITS array
   \cup { St("eqstore:" \o v, SExpr(IAsg(Id(v), Num(0), Arr(<<Num(1)>>)))) : v \in Vars }                      \* an array stored where an equal-looking one may sit: identity, not content
+  \cup { St("pusharr:" \o v, SExpr(Asg(v, Call(Id("push"), <<Id(v), Id(Other(v)), Id(Other(v))>>)))) : v \in Vars }      \* an array pushed as an element stays THAT array
   \cup { St("twin:" \o v, SBlock(<< SExpr(IAsg(Id(v), Num(0), Arr(<<Num(7)>>))), SVar("tw", Arr(<<Num(7)>>)), SExpr(IAsg(Id(v), Num(0), Id("tw"))),      \* a store replaces what the slot holds even if
                                      SExpr(IAsg(Id("tw"), Num(0), Fresh)), SPrint(Idx(Idx(Id(v), Num(0)), Num(0))) >>)) : v \in Vars }                       \* the old and the new array look alike
   \cup { St("writeLast:" \o v, SExpr(IAsg(Id(v), LastIdx(v), Fresh))) : v \in Vars }
